@@ -90,6 +90,8 @@ def scenarios(draw):
         for _ in range(src.int(0, 3)):
             a = src.int(0, max(0, c[1] - 600))
             sc["overrides"].append([c[0], a, "@lower:%d" % src.int(50, 1500)])
+        if src.bool(0.25):
+            sc["overrides"].append([c[0], 0, "@lower:%d" % c[1]])      # a contig that is masked as a whole
     lens = {c[0]: c[1] for c in sc["chroms"]}
     sc["reads"] = [r for r in sc["reads"] if R.cigar_blocks(r["p"], r["cg"])[-1][1] + 45 < lens[r["c"]]]
     sc["opts"] = ["--data_type", src.choice(["nanopore", "pacbio_ccs"]), "--no_gzip", "--threads",
